@@ -12,7 +12,7 @@ COQ_INPUT_TYPE = "Z * Z * Z * Z * Z * Z * list (Z * Z) * (Z * Z)"
 SHARD = 40
 RULE = ("each field swept over its full range with the others random; all pairwise boundary combinations; data lengths "
         "{1,2,255,256,65535,65536} and 0/65537; out-of-range on each side; thorough: all 2^16 values of each 16-bit header word; "
-        "distinct = distinct (field values, data length class)")
+        "every constructed packet re-framed from bytes and from a file read in blocks of 4096 and 1000; distinct = distinct (field values, data length class)")
 ASSUMPTIONS = ["data bytes for lengths > 64 come from a 31-bit LCG evaluated identically in Coq and Python"]
 
 FIELDS = [("v", 7), ("t", 1), ("s", 1), ("a", 2047), ("f", 3), ("c", 16383)]
@@ -96,7 +96,10 @@ def impl(case):
         assert isinstance(p, packets.RawPacketData)
         hv = [int(x) for x in p.header_values]
         items = framing.run_generator(0, 0, bytes(p), [], None, cap=4)
-        return [bytes(p), hv, [len(items), items == [bytes(p)]]]
+        # the constructed packet is re-framed from a bytes object and from a file object read in blocks (several reads for a large
+        # packet) and in one short block
+        again = all(framing.run_generator(1, 0, bytes(p), [], r, cap=4) == [bytes(p)] for r in (4096, 1000))
+        return [bytes(p), hv, [len(items), items == [bytes(p)] and again]]
     return core.res_sx(core.guarded(run, timeout_s=10))
 
 
